@@ -530,13 +530,25 @@ class OFXClient:
         #  responds with the profile-response aggregate <PROFRS> in the profile-transaction
         #  aggregate <PROFTRNRS>.
         proftrnrs = ofx.profmsgsrsv1[0]
+        #  These are checks of what the server sent, not of internal invariants, so
+        #  they must not be `assert` statements (which `python -O` compiles away).
         if proftrnrs.status.code == 1:
-            assert profrs is not None
+            if profrs is None:
+                raise ValueError(
+                    "Server says the profile is up to date, but no profile is cached"
+                )
             response = profrs
         else:
-            assert proftrnrs.status.code == 0
+            if proftrnrs.status.code != 0:
+                raise ValueError(
+                    f"Profile request failed with status code {proftrnrs.status.code}"
+                )
             dtprofup_server = proftrnrs.profrs.dtprofup
-            assert dtprofup is None or dtprofup <= dtprofup_server
+            if dtprofup is not None and dtprofup > dtprofup_server:
+                raise ValueError(
+                    f"Server sent a profile dated {dtprofup_server}, "
+                    f"older than the cached one dated {dtprofup}"
+                )
 
             # Cache the updated PROFRS sent by the server.
             # Write to a private temporary file and rename it into place, so that
